@@ -52,6 +52,11 @@ def ops_st(n_ops):
                                'ns': st.integers(0, 2), 'auth': auth}),
         st.fixed_dictionaries({'op': st.just('cdisc'), 'c': ci}),
         st.fixed_dictionaries({'op': st.just('sdisc'), 'c': ci}),
+        # ... while the connection is being closed: the DISCONNECT packet
+        # cannot be sent any more (engine.io: SocketIsClosedError), the loss
+        # of the transport follows
+        st.fixed_dictionaries({'op': st.just('sdisc'), 'c': ci,
+                               'fail': st.just('closed')}),
         st.fixed_dictionaries({'op': st.just('lose'), 't': st.integers(0, 3)}),
         st.fixed_dictionaries({'op': st.just('bcast'),
                                'ns': st.integers(0, 3)}),
@@ -526,6 +531,41 @@ def _run(case, w):
                 w.send(c['t'], wire.DISCONNECT, c['ns'])
                 if w.recv(c['t']):
                     raise Violation('unexpected-packet', 'after DISCONNECT')
+            elif op.get('fail'):
+                import engineio
+                disc_expected[c['sid']] = {R.SERVER_DISCONNECT}
+                real = (sio.eio.send, sio.eio.send_packet)
+                dying = w.t[c['t']]
+
+                def mk_bad(orig):
+                    if case['aio']:
+                        async def bad(eio_sid, *a, **kw):
+                            if eio_sid == dying:
+                                raise engineio.exceptions.SocketIsClosedError()
+                            return await orig(eio_sid, *a, **kw)
+                    else:
+                        def bad(eio_sid, *a, **kw):
+                            if eio_sid == dying:
+                                raise engineio.exceptions.SocketIsClosedError()
+                            return orig(eio_sid, *a, **kw)
+                    return bad
+                sio.eio.send, sio.eio.send_packet = map(mk_bad, real)
+                try:
+                    w.do(sio.disconnect(c['sid'], namespace=c['ns']))
+                finally:
+                    sio.eio.send, sio.eio.send_packet = real
+                w.mark_dead(ci)
+                ended.append((c['sid'], c['ns'], c['t']))
+                check_disconnects(step)
+                for i, c2 in enumerate(w.clients):
+                    if c2['t'] == c['t'] and c2['alive']:
+                        disc_expected[c2['sid']] = {R.TRANSPORT_ERROR}
+                        ended.append((c2['sid'], c2['ns'], c['t']))
+                w.lose(c['t'])
+                labels['nontrivial'] = True
+                labels['server_disconnect_on_closed_socket'] = True
+                check_disconnects(step)
+                continue
             else:
                 disc_expected[c['sid']] = {R.SERVER_DISCONNECT}
                 w.do(sio.disconnect(c['sid'], namespace=c['ns']))
@@ -644,6 +684,14 @@ def enumerate_sharded(tier, shard, nshards):
     # ... and another transport asks for a namespace meanwhile: it is served
     cfgs.append({'sched': True, 'causes': ['lose', 'oconnect']})
     cfgs.append({'sched': True, 'causes': ['sdisc', 'oconnect', 'lose']})
+    # the application disconnects the client of the transport's *other*
+    # namespace (the one the loss gets to last) while the loss is being
+    # handled: the socket is already closed, the send fails, and that call is
+    # the only one that can still run the client's disconnect handler
+    cfgs.append({'sched': True, 'causes': ['lose', 'xsdisc']})
+    cfgs.append({'sched': True, 'causes': ['xsdisc', 'lose']})
+    cfgs.append({'sched': True, 'causes': ['sdisc', 'xsdisc']})
+    cfgs.append({'sched': True, 'causes': ['lose', 'xsdisc', 'sdisc']})
     for i, cfg in enumerate(cfgs):
         if i % nshards != shard:
             continue
@@ -712,6 +760,8 @@ def _sched_execute(case):
             return sock.receive(ep.Packet(ep.MESSAGE, '1'))
         if name == 'odisc':
             return sock.receive(ep.Packet(ep.MESSAGE, '1/x,'))
+        if name == 'xsdisc':
+            return sio.disconnect(other['sid'], namespace='/x')
         if name == 'refuse':
             return sock_r.receive(ep.Packet(ep.MESSAGE, '0{"refuse":1}'))
         if name == 'yconnect':
@@ -775,7 +825,8 @@ def _sched_judge(case, s, o):
         if kills and (m.is_connected(victim['sid'], '/') or sio.rooms(
                 victim['sid']) or m.pending_disconnect):
             raise Violation('victim-not-removed', what)
-        o_killed = 'lose' in names or 'odisc' in names
+        o_killed = 'lose' in names or 'odisc' in names or \
+            'xsdisc' in names
         o_inv = [e for e in o['log'] if e[1] == other['sid']]
         if len(o_inv) != (1 if o_killed else 0):
             raise Violation('other-namespace-handler-count',
